@@ -156,6 +156,10 @@ func checkSkipSeq(c SkipSeqCase, cv *cov) *evid.Violation {
 				split = true
 			}
 			rn += d
+			if len(c.Encs) > 1 && i%2 == 0 {
+				br.Release(releaseArg(i / 2)) // between two values; unread (already buffered) bytes must stay
+				rn = 0                        // Readn is the reader's ReadLen, which a Release resets
+			}
 		}
 		if len(c.Trailer) == 0 && sr.TermCalls > 0 {
 			v = evid.Failf("BufferReader.Skip: the stream ends with the last value, yet after all of its bytes had been delivered the skipper asked the source for more (%d further Read calls); on a connection that stays open this blocks (source plan %+v)", sr.TermCalls, sr.Plan)
@@ -186,6 +190,10 @@ func checkSkipSeq(c SkipSeqCase, cv *cov) *evid.Violation {
 				split = true
 			}
 			rl += d
+			if len(c.Encs) > 1 && i%2 == 0 {
+				br.Release(releaseArg(i / 2)) // out is not used after this point
+				rl = 0
+			}
 		}
 		if len(c.Trailer) == 0 && sr.TermCalls > 0 {
 			v = evid.Failf("SkipDecoder.Next: the stream ends with the last value, yet after all of its bytes had been delivered the decoder asked the source for more (%d further Read calls) (source plan %+v)", sr.TermCalls, sr.Plan)
